@@ -548,6 +548,9 @@ class ObjectBase(EntityContainer):
                 values = getattr(child, "_values", None)
                 if values is None:
                     values = child.workspace.fetch_values(child)
+                if isinstance(values, str):
+                    # a single text entry is stored like a plain string
+                    values = np.array([values])
                 stored = indices
                 if isinstance(values, np.ndarray) and values.ndim > 0:
                     # stored arrays may be shorter than the geometry
